@@ -4,7 +4,7 @@ from engfam import *  # noqa
 from c05 import base
 
 PID = "C04"
-ENTRIES_P = ["Execute", "ExecuteSelectedRules", "ExecuteSelectedRulesWithControl"]
+ENTRIES_P = ["Execute", "ExecuteSelectedRules", "ExecuteSelectedRulesWithControl", "ExecuteWithStopTagDirect", "ExecuteSelectedRulesWithControlAndStopTag"]
 
 
 # a rule can fail in several ways: a failing statement, a failing return expression, a panic raised inside the evaluation of a
@@ -30,6 +30,18 @@ def make_cases(rng, tier, diff_here):
                     cases.append(base("ExecuteSelectedRulesWithControl", rules, b=b, names=names))
                 cases.append(base("ExecuteSelectedRules", rules, names=list(reversed([r["name"] for r in rules]))))
     cases.append(base("Execute", []))
+    # the sorted variants that carry a stop tag are the sort model too: every failing subset x every position of a tag-setting rule
+    # (the failing rule itself included: it sets the tag and then fails) x both flags
+    for k in (2, 3, 4):
+        for stop_pos in [None] + list(range(k)):
+            for fbits in range(2 ** k):
+                rules = [{"name": NAMES[i], "sal": 9 - i, "kind": FAILK[(i + fbits) % len(FAILK)] if (fbits >> i) & 1 else ("ret" if i % 2 else "plain"),
+                          "stop": stop_pos == i, "ver": 100 + i} for i in range(k)]
+                names = [r["name"] for r in rules]
+                rng.shuffle(names)
+                for b in (True, False):
+                    cases.append(base("ExecuteWithStopTagDirect", rules, b=b))
+                    cases.append(base("ExecuteSelectedRulesWithControlAndStopTag", rules, b=b, names=names))
     # rule sets installed through HISTORIES of builder operations (full, incremental with moved saliences, removals incl. absent names)
     ver = [500]
 
@@ -72,7 +84,7 @@ def make_cases(rng, tier, diff_here):
 
 
 RULE = ("systematic: rule sets of size 1-4 (thorough 1-5) over saliences {-2,0,0,3,7} (ties, negatives) x EVERY failing subset x both flags, through Execute and the two sorted selected variants "
-        "(names permuted); rule sets installed through 18 (thorough 308) histories of full / incremental (moved and tied saliences, the int64 extremes, several rules per text) / removal (incl. absent names) operations, whose installed order must be the denoted set in non-increasing current salience; random: 200 (thorough 5000) calls with up to 7 (10) rules.")
+        "(names permuted); sets of size 2-4 x every failing subset x every position of a tag-setting rule (a failing rule included) x both flags through the two sorted stop-tag variants; rule sets installed through 18 (thorough 308) histories of full / incremental (moved and tied saliences, the int64 extremes, several rules per text) / removal (incl. absent names) operations, whose installed order must be the denoted set in non-increasing current salience; random: 200 (thorough 5000) calls with up to 7 (10) rules.")
 
 
 def main(run):
